@@ -43,6 +43,8 @@ AXIS_POOL = [a for a, w in AXIS_WEIGHTS for _ in range(w)]
 def g_test(r, axis, names):
     x = r.random()
     if axis == 'attribute':
+        if x < 0.04:
+            return ['*local', r.choice(['n', 's', 'q'])]
         if x < 0.6:
             return ['name', r.choice(['n', 's', 'q']), None]
         if x < 0.7:
@@ -56,6 +58,11 @@ def g_test(r, axis, names):
         if x < 0.8:
             return ['name', r.choice(['p1', 'p2', 'p3', 'xml', 'd']), None]
         return ['node']
+    if x < 0.06:
+        # XPath 2.0+ only (the case is then not given to 1.0/libxml2); a name that is a proper suffix of another
+        # name of the document is preferred (a suffix test instead of a local-name test shows there)
+        sfx = sorted({b for a in names for b in names + ['a'] if a != b and a.endswith(b)})
+        return ['*local', r.choice(sfx) if sfx and r.random() < 0.6 else r.choice(names + ['a'])]
     if x < 0.45:
         return ['name', r.choice(names), None]
     if x < 0.55:
@@ -73,7 +80,7 @@ def g_test(r, axis, names):
     return ['pi', r.choice([None, None, 'tgt', 'pi'])]
 
 
-POSITIONAL = ('num', 'last', 'lastminus', 'pos')
+POSITIONAL = ('num', 'last', 'lastminus', 'pos', 'posnum', 'countnum')
 
 
 def g_pred(r, names, depth):
@@ -84,8 +91,13 @@ def g_pred(r, names, depth):
         return ['last']
     if x < 0.38:
         return ['lastminus', 1]
-    if x < 0.50:
+    if x < 0.47:
         return ['pos', r.choice(['=', '!=', '<', '<=', '>', '>=']), r.randint(1, 3)]
+    if x < 0.50:
+        # numeric predicates whose value varies with the item: several items can match
+        if depth >= 2 or r.random() < 0.3:
+            return ['posnum']
+        return ['countnum', g_path(r, names, depth + 1, rel=True, maxsteps=1), r.choice([0, 0, 1])]
     if x < 0.58:
         return ['attr', r.choice(['n', 's', 'q'])]
     if x < 0.68:
@@ -171,7 +183,7 @@ def sanitize(path):
             q = p
             while q[0] == 'not':
                 q = q[1]
-            if q[0] in ('path', 'count'):
+            if q[0] in ('path', 'count', 'countnum'):
                 sanitize(q[1])
     return path
 
@@ -188,6 +200,25 @@ def path_axes(path, acc=None):
         else:
             acc.append(s['axis'])
     return acc
+
+
+def uses_local_wildcard(path):
+    """does the path use a `*:NCName` test (not in the XPath 1.0 grammar)?"""
+    if 'union' in path:
+        return any(uses_local_wildcard(p) for p in path['union'])
+    for s in path['steps']:
+        if 'paren' in s:
+            if uses_local_wildcard(s['paren']):
+                return True
+        elif s['test'][0] == '*local':
+            return True
+        for p in s['preds']:
+            q = p
+            while q[0] == 'not':
+                q = q[1]
+            if q[0] in ('path', 'count', 'countnum') and uses_local_wildcard(q[1]):
+                return True
+    return False
 
 
 def is_abs(path):
@@ -499,7 +530,10 @@ def check_case(kind, case):
                 out.dim('axis_nonempty', a)
         ctx_engine = eng_by_id[ctx_model.id]
         lx = None
-        if lib == 'lxml' and (has_doc or not is_abs(path)):
+        versions = VERSIONS[1:] if uses_local_wildcard(path) else VERSIONS
+        if len(versions) < len(VERSIONS):
+            out.dim('xpath2_only_tests', '*:NCName')
+        if lib == 'lxml' and (has_doc or not is_abs(path)) and len(versions) == len(VERSIONS):
             lx = libxml2_ids(twin, table, ctx_model, text)
             if lx is not None:
                 out.dim('oracle', 'libxml2-comparisons')
@@ -511,7 +545,7 @@ def check_case(kind, case):
                     lx_agrees = True
         got_by_version = {}
         raw_by_version = {}
-        for ver in VERSIONS:
+        for ver in versions:
             def run(ver=ver):
                 parser = PARSERS[ver](namespaces=NS_POOL)
                 tok = parser.parse(text)
@@ -529,7 +563,7 @@ def check_case(kind, case):
                     raw_by_version[ver] = ids_of(res[1], mapping)
                     got_by_version[ver] = norm_ns(raw_by_version[ver], table)
         wantn = norm_ns(want, table)
-        for ver in VERSIONS:
+        for ver in versions:
             got = got_by_version[ver]
             if got == wantn:
                 continue
@@ -544,9 +578,9 @@ def check_case(kind, case):
             out.fail(key, detail)
             break
         # cross-version agreement
-        vals = [got_by_version[v] for v in VERSIONS]
+        vals = [got_by_version[v] for v in versions]
         if any(v != vals[0] for v in vals[1:]) and all(not isinstance(v, tuple) for v in vals):
-            out.fail('C01/version-disagreement', '%s: %s' % (text, {v: got_by_version[v] for v in VERSIONS}))
+            out.fail('C01/version-disagreement', '%s: %s' % (text, {v: got_by_version[v] for v in versions}))
         # public call forms (contexts that have a wrapped object of their own: document, element, comment, PI)
         if ctx_model.kind in ('doc', 'elem', 'comment', 'pi') and isinstance(got_by_version['2.0'], list):
             out.dim('public_context_kind', ctx_model.kind)
